@@ -21,6 +21,15 @@
                       R4  if not _disable_sending: protocol.resume_writing()
                       R5  _engine_state = None
      Gateway._resume  R6  config.disable_discovery = disc
+     Engine.start     B1  _transport = await transport_factory(_protocol, ...)   (action Bind)
+
+   The engine has no transport until start() (Engine.__init__: "None until self.start()"): E4 and R3
+   are guarded by `if self._transport:`, E3 and R4 are not.  The gateway therefore begins in the
+   phase 'not yet started' (tr = FALSE), in which operations may be requested just as well (a
+   snapshot of the configured state, a cache restored before the port is opened: point zero of the
+   history); Bind is start() and may happen whenever no operation is in progress.  "Running as
+   before" in that phase: not paused, handler installed, flags as configured, writing not paused,
+   nothing reading (there is nothing to read from) - and once Bind has happened, running.
 
    restore awaits inside its body, so a second operation may start there (nested misuse: pause
    while paused).  Views are read-only.  The projection <<es, hdl, snd, rd, pw, disc>> is what
@@ -39,12 +48,13 @@ VARIABLES
   rd,     \* transport is reading
   pw,     \* protocol._pause_writing
   disc,   \* config.disable_discovery
+  tr,     \* a transport is bound (start() has been called): FALSE = 'not yet started'
   saved,  \* the tuple kept in _engine_state
   calls,  \* stack of operations in progress: [op, pc, base, dflag, raised]
   done,   \* the operation that has just finished: [op, base, raised] or NoDone
   h
 
-vars == <<es, hdl, snd, rd, pw, disc, saved, calls, done, h>>
+vars == <<es, hdl, snd, rd, pw, disc, tr, saved, calls, done, h>>
 
 Proj == <<es, hdl, snd, rd, pw, disc>>
 NoDone == [op |-> "-", base |-> <<>>, raised |-> FALSE]
@@ -52,12 +62,15 @@ NoDone == [op |-> "-", base |-> <<>>, raised |-> FALSE]
 (* "running": what a gateway that is neither paused nor broken looks like *)
 (* p = <<es, hdl, snd, rd, pw, disc>>; noSend = disable_sending.  A gateway that may not send is
    never un-paused for writing (R4), so pw is only compared for a sending gateway. *)
-Running(p, noSend, noDisc) ==
-  p = <<"none", TRUE, noSend, TRUE, IF noSend THEN p[5] ELSE FALSE, noDisc>>
+(* bound = a transport exists (the gateway has been started): it is reading iff there is one *)
+RunningIn(p, bound, noSend, noDisc) ==
+  p = <<"none", TRUE, noSend, bound, IF noSend THEN p[5] ELSE FALSE, noDisc>>
+Running(p, noSend, noDisc) == RunningIn(p, TRUE, noSend, noDisc)
 SameProj(p, q) == /\ p[1] = q[1] /\ p[2] = q[2] /\ p[3] = q[3] /\ p[4] = q[4] /\ p[6] = q[6]
                   /\ (~p[3] => p[5] = q[5])
 
-Init == /\ es = "none" /\ hdl = TRUE /\ snd = CfgSending /\ rd = TRUE /\ pw = FALSE /\ disc = CfgDisc
+Init == /\ es = "none" /\ hdl = TRUE /\ snd = CfgSending /\ rd = FALSE /\ pw = FALSE /\ disc = CfgDisc
+        /\ tr = FALSE
         /\ saved = <<TRUE, CfgSending, CfgDisc>>
         /\ calls = <<>> /\ done = NoDone /\ h = <<>>
 
@@ -70,7 +83,16 @@ Start(op) ==
   /\ IF calls = <<>> THEN TRUE ELSE (Top.op = "restore" /\ Top.pc = "body")
   /\ calls' = Append(calls, [op |-> op, pc |-> "P1", base |-> Proj, dflag |-> FALSE, raised |-> FALSE])
   /\ done' = NoDone /\ h' = Append(h, <<"start", op>>)
-  /\ UNCHANGED <<es, hdl, snd, rd, pw, disc, saved>>
+  /\ UNCHANGED <<es, hdl, snd, rd, pw, disc, tr, saved>>
+
+(* Gateway.start() / Engine.start(): the protocol - in whatever state the operations so far have left
+   it - is bound to a new transport, which reads.  Nothing else of the projection is touched
+   (Gateway.start saves and puts back disable_discovery around it). *)
+Bind ==
+  /\ calls = <<>> /\ ~tr
+  /\ tr' = TRUE /\ rd' = TRUE
+  /\ done' = NoDone /\ h' = Append(h, <<"bind", "start()">>)
+  /\ UNCHANGED <<es, hdl, snd, pw, disc, saved, calls>>
 
 Finish(raised) ==
   /\ done' = [op |-> Top.op, base |-> Top.base, raised |-> raised]
@@ -78,6 +100,7 @@ Finish(raised) ==
 
 Step ==
   /\ calls # <<>>
+  /\ tr' = tr
   /\ LET c == Top IN
      CASE c.pc = "P1" ->
             /\ disc' = TRUE /\ calls' = SetTop([c EXCEPT !.pc = "E1", !.dflag = disc])
@@ -90,7 +113,7 @@ Step ==
                  /\ done' = NoDone /\ UNCHANGED <<hdl, snd, rd, pw, disc, saved, h>>
        [] c.pc = "E3" -> /\ pw' = TRUE /\ calls' = SetTop([c EXCEPT !.pc = "E4"])
                          /\ done' = NoDone /\ UNCHANGED <<es, hdl, snd, rd, disc, saved, h>>
-       [] c.pc = "E4" -> /\ rd' = FALSE /\ calls' = SetTop([c EXCEPT !.pc = "E5"])
+       [] c.pc = "E4" -> /\ rd' = (IF tr THEN FALSE ELSE rd) /\ calls' = SetTop([c EXCEPT !.pc = "E5"])
                          /\ done' = NoDone /\ UNCHANGED <<es, hdl, snd, pw, disc, saved, h>>
        [] c.pc = "E5" -> /\ hdl' = FALSE /\ saved' = <<hdl, saved[2], saved[3]>>
                          /\ calls' = SetTop([c EXCEPT !.pc = "E6"])
@@ -114,7 +137,7 @@ Step ==
             THEN Finish(TRUE) /\ UNCHANGED <<es, hdl, snd, rd, pw, disc, saved, h>>
             ELSE /\ hdl' = saved[1] /\ snd' = saved[2] /\ calls' = SetTop([c EXCEPT !.pc = "R3"])
                  /\ done' = NoDone /\ UNCHANGED <<es, rd, pw, disc, saved, h>>
-       [] c.pc = "R3" -> /\ rd' = TRUE /\ calls' = SetTop([c EXCEPT !.pc = "R4"])
+       [] c.pc = "R3" -> /\ rd' = (IF tr THEN TRUE ELSE rd) /\ calls' = SetTop([c EXCEPT !.pc = "R4"])
                          /\ done' = NoDone /\ UNCHANGED <<es, hdl, snd, pw, disc, saved, h>>
        [] c.pc = "R4" -> /\ pw' = (IF snd THEN pw ELSE FALSE) /\ calls' = SetTop([c EXCEPT !.pc = "R5"])
                          /\ done' = NoDone /\ UNCHANGED <<es, hdl, snd, rd, disc, saved, h>>
@@ -123,7 +146,7 @@ Step ==
        [] c.pc = "R6" -> /\ disc' = saved[3] /\ Finish(c.raised)
                          /\ UNCHANGED <<es, hdl, snd, rd, pw, saved, h>>
 
-Next == (\E op \in {"get_state", "restore"} : Start(op)) \/ Step
+Next == (\E op \in {"get_state", "restore"} : Start(op)) \/ Step \/ Bind
 Spec == Init /\ [][Next]_vars
 
 -----------------------------------------------------------------------------
@@ -137,6 +160,9 @@ AsBeforeUnlessBodyRaised ==
   (done # NoDone /\ ~(done.raised /\ done.base[1] = "none" /\ Proj[1] # "none")) => SameProj(Proj, done.base)
 
 (* at rest the gateway runs *)
-RunningAtRest == (calls = <<>> /\ (done = NoDone \/ ~done.raised)) => Running(Proj, CfgSending, CfgDisc)
-RunningAtRestStrict == calls = <<>> => Running(Proj, CfgSending, CfgDisc)
+(* at rest the gateway runs - in the phase it is in; in particular a gateway started after any number
+   of operations in the 'not yet started' phase is running (still receiving, still able to send) *)
+BodyRaised == \E i \in 1..Len(h) : h[i][1] = "raise"    \* (without try/finally: paused for good, Bind or not)
+RunningAtRest == (calls = <<>> /\ (done = NoDone \/ ~done.raised) /\ ~BodyRaised) => RunningIn(Proj, tr, CfgSending, CfgDisc)
+RunningAtRestStrict == calls = <<>> => RunningIn(Proj, tr, CfgSending, CfgDisc)
 =============================================================================
